@@ -298,9 +298,29 @@ func (ad *Advertisement) VerifySignature() (peer.ID, error) {
 		seenTopLevelProv := false
 		for _, p := range ad.ExtendedProvider.Providers {
 
-			_, err = record.ConsumeTypedEnvelope(p.Signature, rec)
+			epEnvelope, err := record.ConsumeTypedEnvelope(p.Signature, rec)
 			if err != nil {
 				return "", err
+			}
+
+			// The entry must be signed by the identity it names; the entry of
+			// the advertisement's own provider is signed by the advertisement's signer.
+			epSignerID, err := peer.IDFromPublicKey(epEnvelope.PublicKey)
+			if err != nil {
+				return "", fmt.Errorf("cannot convert public key to peer ID: %w", err)
+			}
+			if p.ID == ad.Provider {
+				if epSignerID != signerID {
+					return "", errors.New("extended provider signature not made by the advertisement signer")
+				}
+			} else {
+				epID, err := peer.Decode(p.ID)
+				if err != nil {
+					return "", fmt.Errorf("cannot decode extended provider ID: %w", err)
+				}
+				if epSignerID != epID {
+					return "", errors.New("extended provider signature not made by the named provider")
+				}
 			}
 
 			// Calculate our signature payload
